@@ -518,6 +518,9 @@ func (w *World) resolveMetaCas(op Op) uint64 {
 			return cur.Cas
 		}
 		v = m.MaxCas + 0x10000 + 0x3039
+	case "huge":
+		// beyond what the store can hold (a signed 64-bit column): the call must fail cleanly
+		return 1<<63 | uint64(0x3039+2*(atomic.AddInt64(&metaSerial, 1)%1000))
 	case "below":
 		v = 1000
 	case "between":
